@@ -14,6 +14,20 @@ CHECKS = {
          "Trusted: TLC, the stub Feer (balances change only at RemoveStale), the projection of real transactions to abstract records "
          "(read back from the real Transaction objects). Universes are small (5-6 transactions exhaustive, 8-17 random).",
          "TLA+ two-level spec; TLC exhaustive Impl=>Abstract; TLC simulation replay on real Pool; TLC trace validation of recorded steps"),
+ "C01": ("model_checking",
+         "TLC exhaustively checks Node.tla (replicas x AddBlock/Flush/Stop/Crash/Restart schedules over all vote/plain chains with committee "
+         "epochs: equal height => equal ledger state, equal to the never-restarted reference; disk is a prefix) and generates schedules; the "
+         "schedules are executed on real core.Blockchain replicas on MemoryStore/BoltDB/LevelDB with different node-local options, fed the "
+         "same serialized blocks of a generated history (transfers, votes/candidates across epochs, policy/roles, deploy/update/destroy, "
+         "storage-heavy and faulting invocations, notary deposits); after every step a 13-component digest of the replica is recorded and "
+         "TLC (NodeTrace) checks it equals the reference node's digest at that height, that flushes change no answer and that a clean "
+         "stop/restart is transparent. Sampled at code level (histories x schedules), exhaustive at model level.",
+         "DESIGN.md section 4 C01",
+         "Trusted: TLC; the digest (state root, full storage dump of native ids and deployed ids 1..24, AERs of the top block, committee/"
+         "validators/candidates, policy values, native+deployed contract states, roles) as the notion of 'ledger state'; the history generator "
+         "produces only blocks the reference node accepted; block signers stay the standby validators (NextConsensus fixed) while the computed "
+         "committee/validators vary with votes. StateRootInHeader varies per world, not between replicas of one world.",
+         "TLA+ Node model checked by TLC; TLC-generated schedules replayed on real replicas; TLC trace validation of per-step digests"),
 }
 
 NOT_YET = {}   # id -> reason (properties not (yet) claimed)
